@@ -1087,6 +1087,19 @@ package stats
 //@   ensures lo == dist_lo(self) && hi == dist_hi(self)
 //@   assigns nothing
 
+// bisect (C12, used by KDE.Bounds): given a bracket - f within tolerance at an
+// end, or of different sign at the two ends - the panic is unreachable, the
+// result lies inside the bracket, and ok means |f(x)| <= tolerance.
+//@ func bisect
+//@   model real
+//@   requires low <= high
+//@   requires (-tolerance <= f(low) && f(low) <= tolerance) || (-tolerance <= f(high) && f(high) <= tolerance) || (f(low) < 0 && f(high) > 0) || (f(low) > 0 && f(high) < 0)
+//@   results x, ok
+//@   ensures [inside] low <= x && x <= high
+//@   ensures [root]   ok ==> -tolerance <= f(x) && f(x) <= tolerance
+//@   loop 1 invariant old(low) <= low && low <= high && high <= old(high) && flow == f(low) && fhigh == f(high) && ((flow < 0 && fhigh > 0) || (flow > 0 && fhigh < 0) || (flow == 0 && fhigh != 0 && tolerance < 0) || (fhigh == 0 && flow != 0 && tolerance < 0))
+//@   assigns nothing
+
 //@ func bisectBool
 //@   model xreal
 //@   requires isfinite(low) && isfinite(high) && low < high && isfinite(xtol) && f(low) != f(high)
@@ -1308,14 +1321,52 @@ package stats
 //@   assigns kde.Bandwidth
 
 //@ func KDE.CDF
+//@   deterministic
 //@   model real
 //@   requires kde != nil && wfKDE(*kde)
+//@   ensures [lazy-bandwidth] (old(kde.Bandwidth) != 0 || BandwidthScott(old(kde.Sample)) == 0) ==> kde.Bandwidth == old(kde.Bandwidth)
+//@   ensures [frame] kde.Sample == old(kde.Sample) && kde.Kernel == old(kde.Kernel) && kde.BoundaryMethod == old(kde.BoundaryMethod) && kde.BoundaryMin == old(kde.BoundaryMin) && kde.BoundaryMax == old(kde.BoundaryMax)
 //@   ensures [below] (kde.BoundaryMin != 0 || kde.BoundaryMax != 0) && x < kde.BoundaryMin ==> result == 0
 //@   ensures [above] (kde.BoundaryMin != 0 || kde.BoundaryMax != 0) && !(x < kde.BoundaryMin) && x >= kde.BoundaryMax ==> result == 1
 //@   check @ret3 [unbounded]  result0 == y(x)
 //@   check @ret4 [lower-only] result0 == y(x) - y(2 * kde.BoundaryMin - x)
 //@   check @ret5 [upper-only] result0 == y(x) + (1 - y(2 * kde.BoundaryMax - x))
 //@   check @ret6 [period]     d == 2 * (kde.BoundaryMax - kde.BoundaryMin) && w == 2 * (x - kde.BoundaryMin)
+//@   assigns kde.Bandwidth
+
+// KDE.Bounds (C12): the bisections are always bracketed (no panic), and with
+// boundary correction the result lies inside the boundaries. The two function
+// literals are kde.CDF shifted by the two levels. (That the interval holds 98%
+// of the mass, and termination of the two expansion loops, are not decided.)
+//@ lemma fsum_pos_nonzero(w []float64, n int) induction n
+//@   model real
+//@   requires 0 <= n && n <= len(w) && (forall k in 0..n :: w[k] >= 0) && fsum(w, n) > 0
+//@   ensures exists k in 0..n :: w[k] != 0
+//@ spec kdeFrame(a KDE, b KDE) bool = a.Sample == b.Sample && a.Kernel == b.Kernel && a.BoundaryMethod == b.BoundaryMethod && a.BoundaryMin == b.BoundaryMin && a.BoundaryMax == b.BoundaryMax
+//@ func KDE.Bounds#lit1
+//@   deterministic
+//@   model real
+//@   requires kde != nil && wfKDE(*kde) && (kde.Bandwidth != 0 || BandwidthScott(kde.Sample) == 0)
+//@   ensures [def]  result == kde.CDF(x) - 0.005
+//@   ensures [lazy] kde.Bandwidth == old(kde.Bandwidth)
+//@   assigns kde.Bandwidth
+//@ func KDE.Bounds#lit2
+//@   deterministic
+//@   model real
+//@   requires kde != nil && wfKDE(*kde) && (kde.Bandwidth != 0 || BandwidthScott(kde.Sample) == 0)
+//@   ensures [def]  result == kde.CDF(x) - 0.995
+//@   ensures [lazy] kde.Bandwidth == old(kde.Bandwidth)
+//@   assigns kde.Bandwidth
+
+//@ func KDE.Bounds
+//@   model real
+//@   requires kde != nil && wfKDE(*kde)
+//@   results low, high
+//@   ensures [inside] (kde.BoundaryMin != 0 || kde.BoundaryMax != 0) ==> low >= kde.BoundaryMin && high <= kde.BoundaryMax
+//@   ensures [frame]  kde.Sample == old(kde.Sample) && kde.Kernel == old(kde.Kernel) && kde.BoundaryMethod == old(kde.BoundaryMethod) && kde.BoundaryMin == old(kde.BoundaryMin) && kde.BoundaryMax == old(kde.BoundaryMax)
+//@   assert @assign:lowX#1 [ordered] lowX <= highX by fsum_pos_nonzero(kde.Sample.Weights, len(kde.Sample.Weights))
+//@   loop 1 invariant kdeFrame(*kde, old(*kde)) && lowX <= highX && (kde.Bandwidth != 0 || BandwidthScott(kde.Sample) == 0) && wfKDE(*kde)
+//@   loop 2 invariant kdeFrame(*kde, old(*kde)) && lowX <= highX && (kde.Bandwidth != 0 || BandwidthScott(kde.Sample) == 0) && wfKDE(*kde) && kde.CDF(lowX) <= 0.005
 //@   assigns kde.Bandwidth
 
 // ---------------------------------------------------------------------
